@@ -99,6 +99,9 @@ func (m *ModelServer) PullPublication(request *traits.PullPublicationRequest, se
 }
 
 func (m *ModelServer) ListPublications(_ context.Context, request *traits.ListPublicationsRequest) (*traits.ListPublicationsResponse, error) {
+	if err := checkPageSize(request.GetPageSize()); err != nil {
+		return nil, err
+	}
 	pageToken := &types.PageToken{}
 	if err := decodePageToken(request.PageToken, pageToken); err != nil {
 		return nil, err
